@@ -1,5 +1,6 @@
 import FgaVerif.Proofs.Clean
 import FgaVerif.Proofs.Listener
+import FgaVerif.Proofs.LineNumbers
 /-!
 # C16 — reported error positions lie inside the input and on the offending text
 
@@ -14,6 +15,14 @@ input.  Proved here, for **every** input (list of characters):
   blank lines precede it;
 * `listener_error_at_name` — the error the listener raises for a duplicate relation is logged at the start
   position of the `relationName` context (the offending name), not at the declaration or the type.
+
+* `merge_position_inside_file`, `merge_position_origin_when_not_found` — the text search the module
+  merger uses to locate a conflicting declaration (port of `utils/line-numbers.go`) never reports a
+  position outside the file: a found line index is below the number of lines, that line (trimmed) starts
+  with the searched text, start and end line coincide, and if the symbol occurs in the line the reported
+  columns lie inside the line and span exactly the symbol; when nothing is found the position is the
+  origin (0, 0).  This holds *also* in the three classes of the open findings — there the position is
+  inside the file but on the wrong declaration (`example`s below are the findings' witnesses).
 
 Not proved: that ANTLR's own positions lie inside the text it was given and that a token's recorded
 (line, column) is where its text stands (runtime contract; bounds-checked by the oracle on every rejected
@@ -82,5 +91,33 @@ theorem listener_error_at_name (pe : Option Bool) (d : Cst.Decl) (hd : d.body.wf
 /-! ## non-vacuity: a comment line, a trailing comment and trailing blanks -/
 example : clean "# c\n  define a: b  # x\n\n".toList = "\n  define a: b".toList := by decide
 example : (splitLines (clean "# c\n  define a: b  # x\n\n".toList)).length = 2 := by decide
+
+/-- **merge conflicts are reported inside the file** -/
+theorem merge_position_inside_file (lines : List (List Char)) (pre sym : String) (i : Nat)
+    (h : Merge.lineWithPrefix pre lines = some i) :
+    ∃ raw, lines[i]? = some raw ∧ i < lines.length ∧
+      Merge.isPrefix pre.toList (Merge.trimSpace raw) = true ∧
+      (Merge.constructLineAndColumnData lines (some i) sym).lineStart = i ∧
+      (Merge.constructLineAndColumnData lines (some i) sym).lineEnd = i ∧
+      ∀ w, Merge.indexOf sym.toList raw = some w →
+        (Merge.constructLineAndColumnData lines (some i) sym).colStart = w ∧
+        (Merge.constructLineAndColumnData lines (some i) sym).colEnd = w + sym.length ∧
+        w + sym.toList.length ≤ raw.length ∧ (raw.drop w).take sym.toList.length = sym.toList :=
+  Merge.position_found lines pre sym i h
+
+theorem merge_position_origin_when_not_found (lines : List (List Char)) (sym : String) :
+    Merge.constructLineAndColumnData lines none sym = {} := rfl
+
+/-! ### the open findings, as facts about the port (and, by correspondence, the code) -/
+def kfFile : List (List Char) :=
+  ["module m".toList, "type doc".toList, "  relations".toList, "    define viewer_all: [doc]".toList,
+   "extend type folder".toList, "  relations".toList, "    define viewer: [doc]".toList]
+
+/-- KF-C16-prefix-line: searching `define viewer` finds line 3 (`define viewer_all`), the clash is on line 6 -/
+example : Merge.lineWithPrefix "define viewer" kfFile = some 3 := by decide
+/-- KF-C16-substring-column: the column of `e` in `    define e: [doc]` is that of the `e` in `define` -/
+example : (Merge.constructLineAndColumnData ["    define e: [doc]".toList] (some 0) "e").colStart = 5 := by decide
+/-- KF-C16-spacing-not-found: two blanks after the keyword and the declaration is not found -/
+example : Merge.lineWithPrefix "type doc" ["type  doc".toList] = none := by decide
 
 end FgaVerif.Props.C16
